@@ -3,6 +3,7 @@ package writecache
 import (
 	"github.com/nspcc-dev/neofs-node/pkg/local_object_storage/shard/mode"
 	"github.com/nspcc-dev/neofs-node/pkg/local_object_storage/util/logicerr"
+	"github.com/nspcc-dev/neofs-node/pkg/util/verifhook"
 )
 
 // ErrReadOnly is returned when Put/Write is performed in a read-only mode.
@@ -14,6 +15,10 @@ var ErrReadOnly = logicerr.New("write-cache is in read-only mode")
 func (c *cache) SetMode(m mode.Mode) error {
 	c.modeMtx.Lock()
 	defer c.modeMtx.Unlock()
+
+	if err := verifhook.Fault("writecache.setmode"); err != nil {
+		return err
+	}
 
 	if m.NoMetabase() && !c.mode.NoMetabase() {
 		err := c.flush(true)
